@@ -404,7 +404,7 @@ pub fn gen_panic_variant(rng: &mut Rng, variant: u64) -> Program {
     phase0_threads.insert(0, t0);
     // healthy objects are in use while the panic happens -- only where no pool thread can die with work of
     // theirs still waiting for a thread (the property speaks about programs issued after the unwinding)
-    if matches!(variant % 10, 3 | 4 | 8) && g.rng.permille(600) {
+    if matches!(variant % 10, 3 | 4) && g.rng.permille(600) {
         let n = g.rng.range(1, 3) as usize;
         let t = g.thread(&HEALTHY, n, false);
         phase0_threads.push(t);
